@@ -57,7 +57,8 @@ def andSlot (s t : Slot Bool) : Slot Bool :=
   ⟨(s.valid && t.valid) || (!s.raw && s.valid) || (!t.raw && t.valid), s.raw && t.raw⟩
 
 def orSlot (s t : Slot Bool) : Slot Bool :=
-  ⟨(s.valid && t.valid) || (s.raw || t.raw), s.raw || t.raw⟩
+  ⟨(s.valid && t.valid) || (s.raw && s.valid) || (t.raw && t.valid),
+    (s.raw || t.raw) && ((s.valid && t.valid) || (s.raw && s.valid) || (t.raw && t.valid))⟩
 
 def notSlot (s : Slot Bool) : Slot Bool := ⟨s.valid, !s.raw && s.valid⟩
 
@@ -71,7 +72,7 @@ theorem orK_eq (a b : Arr Bool) : orK a b = zipSlotM (fun s t => .ok (orSlot s t
   unfold orK
   rw [binaryOp_eq_zipSlotM' _ a b (by intro x y h; cases h)]
   induction a generalizing b with
-  | nil => cases b <;> simp [zipSlotM, orValid, raws]
+  | nil => cases b <;> simp [zipSlotM, orValid, raws, valids, bvAnd, clearNull]
   | cons x xs ih =>
     cases b with
     | nil => simp [zipSlotM]
@@ -79,7 +80,7 @@ theorem orK_eq (a b : Arr Bool) : orK a b = zipSlotM (fun s t => .ok (orSlot s t
       simp only [zipSlotM, binSlot, KOut.map]
       rw [← ih ys]
       cases zipSlotM (binSlot fun x y => KOut.ok (x || y)) xs ys <;>
-        simp [orValid_raws, orSlot]
+        simp [orValid, raws, valids, bvAnd, clearNull, orSlot, Bool.or_assoc]
 
 theorem andK_eq (a b : Arr Bool) : andK a b = zipSlotM (fun s t => .ok (andSlot s t)) a b := by
   unfold andK
